@@ -408,7 +408,11 @@ def t4(repo, res, canon):
             if any(isinstance(x, (ast.Break, ast.Return)) for s in lp.body for x in ast.walk(s)):
                 ok, why = False, 'the run-to-completion loop has another exit than is_finished()'
             runs = [x for s in lp.body for x in ast.walk(s) if isinstance(x, ast.Call) and call_name(x) == 'run']
-            if len(runs) != 1 or not runs[0].args or canon.c(runs[0].args[0], fr) not in (
+            until = None
+            if len(runs) == 1:
+                until = runs[0].args[0] if runs[0].args else next(
+                    (k.value for k in runs[0].keywords if k.arg == 'until'), None)
+            if until is None or ProvCanon(repo).p(until, fr) not in (
                     '(Simulation.env.now + 1)', '(1 + Simulation.env.now)'):
                 ok, why = False, 'the loop does not advance the clock by exactly one step between checks'
         elif ok is False:
